@@ -71,7 +71,7 @@ def cases(tier, seed, phase):
     shapes = auth_shapes()
     for si in range(len(shapes)):
         for tls in ('none', 'starttls', 'immediate'):
-            for pos in ('normal', 'before-ehlo', 'after-success', 'in-transaction'):
+            for pos in ('normal', 'before-ehlo', 'after-success', 'in-transaction', 'after-cancel-login', 'after-bad-b64-login', 'after-cancel-plain'):
                 for verdict in (None, 535):
                     yield {'kind': 'srv-auth', 'shape': si, 'tls': tls, 'pos': pos, 'verdict': verdict}
     for inj in (b'', b'250-injected.example\r\n250 AUTH PLAIN LOGIN\r\n', b'250 ok\r\n', b'5', b'250-half'):
@@ -141,6 +141,13 @@ def run_srv_auth(case, model):
         script += ok_auth
     if pos == 'in-transaction':
         script.append(b'MAIL FROM:<s@x>')
+    # an exchange that was given a user name and then aborted must leave nothing behind for the next one
+    if pos == 'after-cancel-login':
+        script += [b'AUTH LOGIN', b64(b'admin'), b'*']
+    elif pos == 'after-bad-b64-login':
+        script += [b'AUTH LOGIN ' + b64(b'admin'), b'abc']      # not base64 (incorrect padding): 501
+    elif pos == 'after-cancel-plain':
+        script += [b'AUTH PLAIN', b'*']
     script += lines
     script += [b'NOOP', b'NOOP']
     stream = build(script)
